@@ -103,6 +103,16 @@ type Options struct {
 	// free entry for itself (as go-pdf's writer does) instead of an in-use
 	// entry: with this option the in-use entry is always written.
 	NoXRefSelfEntry bool
+
+	// KeepOrder writes the objects of every revision in ascending order of
+	// their numbers (object-stream containers last) instead of letting the
+	// Chooser permute them, so that a caller can place a large object before
+	// others.
+	KeepOrder bool
+	// MinOffsetWidth is a lower bound for the width of field 2 in the /W
+	// array of cross-reference streams (0 = none; the width is never less
+	// than the largest offset needs).
+	MinOffsetWidth int
 }
 
 // Placed describes one object written to the file.
@@ -324,7 +334,11 @@ func (w *fileWriter) revision(ri int, rev *Revision, size *uint32, prev int, las
 		}
 		items = append(items, it)
 	}
-	switch c.Intn(3) {
+	order := 0
+	if !w.opt.KeepOrder {
+		order = c.Intn(3)
+	}
+	switch order {
 	case 1:
 		for i, j := 0, len(items)-1; i < j; i, j = i+1, j-1 {
 			items[i], items[j] = items[j], items[i]
@@ -352,7 +366,7 @@ func (w *fileWriter) revision(ri int, rev *Revision, size *uint32, prev int, las
 				num = w.alloc()
 			}
 			it := bodyItem{num: num, auto: "objstm", members: g}
-			if c.Intn(2) == 0 {
+			if w.opt.KeepOrder || c.Intn(2) == 0 {
 				items = append(items, it)
 			} else {
 				items = append([]bodyItem{it}, items...)
@@ -922,6 +936,9 @@ func (w *fileWriter) xrefStream(ri int, rev *Revision, num uint32, ents map[uint
 		w1 = 1
 	}
 	w1 = widen(w1)
+	if w1 < w.opt.MinOffsetWidth && w.opt.MinOffsetWidth <= 8 {
+		w1 = w.opt.MinOffsetWidth
+	}
 	w2 := bytesFor(max3)
 	if w2 == 0 && !(allInUse && allGen0 && c.Intn(2) == 0) {
 		w2 = 1
